@@ -70,21 +70,24 @@ def showName : Option Name → String
   | some .explicit => "ex"
   | some (.dom i) => s!"d{i}"
 
-def parseSess (s : String) : Option (Nat × Kind) :=
+def parseSess (s : String) : Option SniSess :=
   match splitList s '.' with
-  | [d, k] => do
+  | [d, r, s2s, k] => do
     let d ← d.toNat?
+    let r ← r.toNat?
+    let s2s ← parseBool s2s
     let k ← if k == "p" then some Kind.p else if k == "x" then some .x else if k == "f" then some .f
             else if k == "n" then some .n else none
-    pure (d, k)
+    pure ⟨d, r, s2s, k⟩
   | _ => none
 
 def handle (args : List String) : Option String :=
   match args with
-  | ["run", tee, explicit, domain, st0, rr, rt, others, clear, prot, oracle] => do
+  | ["run", tee, explicit, domain, remote, st0, rr, rt, others, clear, prot, oracle] => do
     let tee ← tee.toNat?
     let explicit ← parseBool explicit
     let domain ← domain.toNat?
+    let remote ← remote.toNat?
     let st0 ← parseMask st0
     let rr ← parseBool rr
     let rt ← parseBool rt
@@ -94,7 +97,7 @@ def handle (args : List String) : Option String :=
     let oracle ← mapM? parseOracle (splitList oracle)
     let cfg : Cfg := { tee := tee != 0, rr := rr, rt := rt, others := others }
     let inp : Input := { clear := clear, prot := prot, oracle := oracle }
-    let env : Env := { domain := domain, captured := if explicit then some .explicit else none }
+    let env : Env := { domain := domain, remote := remote, captured := if explicit then some .explicit else none }
     let r := run cfg env st0 inp (4 * unitCount inp + 8)
     pure (joinList (r.1.filterMap showEv) ++ " " ++ showOutcome r.2)
   | ["sni", explicit, ss] => do
